@@ -397,6 +397,26 @@ func (vc *VC) evalKnown(key string, callee *types.Func, recv Value, call *ast.Ca
 		if a.Sort == SInt {
 			return []Value{Term{fmt.Sprintf("(ite (< %s %s) (- 1) (ite (> %s %s) 1 0))", a.S, b.S, a.S, b.S), SInt, types.Typ[types.Int]}}, true
 		}
+	case "slices.Collect":
+		// slices.Collect(maps.Keys(m)): the keys of m, each exactly once, in an arbitrary order
+		if inner, ok := ast.Unparen(call.Args[0]).(*ast.CallExpr); ok {
+			if fn := vc.calleeOf(inner); fn != nil && fn.Pkg() != nil && fn.Pkg().Path() == "maps" && fn.Name() == "Keys" && len(inner.Args) == 1 {
+				m := vc.term(vc.evalExpr(inner.Args[0], st), pos)
+				rt := vc.typeOf(call)
+				if si := vc.ss.info[m.Sort]; si != nil && si.Kind == "map" && rt != nil {
+					r := vc.freshConst("keys", rt)
+					rs := r.Sort
+					ks := vc.ss.sortOf(si.Key)
+					vc.assume(tBool(true), Term{fmt.Sprintf("(and (= (len.%s %s) (card.%s %s)) (= (isnil.%s %s) (= (card.%s %s) 0)))", rs, r.S, m.Sort, m.S, rs, r.S, m.Sort, m.S), SBool, nil})
+					vc.assume(tBool(true), Term{fmt.Sprintf("(forall ((i! Int)) (! (=> (and (<= 0 i!) (< i! (len.%s %s))) (select (has.%s %s) (select (arr.%s %s) i!))) :pattern ((select (arr.%s %s) i!))))", rs, r.S, m.Sort, m.S, rs, r.S, rs, r.S), SBool, nil})
+					idx := "idx." + r.S
+					vc.decls = append(vc.decls, fmt.Sprintf("(declare-fun %s (%s) Int)", idx, ks))
+					vc.assume(tBool(true), Term{fmt.Sprintf("(forall ((k! %s)) (! (=> (select (has.%s %s) k!) (and (<= 0 (%s k!)) (< (%s k!) (len.%s %s)) (= (select (arr.%s %s) (%s k!)) k!))) :pattern ((select (has.%s %s) k!))))", ks, m.Sort, m.S, idx, idx, rs, r.S, rs, r.S, idx, m.Sort, m.S), SBool, nil})
+					vc.assume(tBool(true), Term{fmt.Sprintf("(forall ((i! Int) (j! Int)) (! (=> (and (<= 0 i!) (< i! j!) (< j! (len.%s %s))) (not (= (select (arr.%s %s) i!) (select (arr.%s %s) j!)))) :pattern ((select (arr.%s %s) i!) (select (arr.%s %s) j!))))", rs, r.S, rs, r.S, rs, r.S, rs, r.S, rs, r.S), SBool, nil})
+					return []Value{r}, true
+				}
+			}
+		}
 	case "slices.Clone":
 		v := vc.term(vc.evalExpr(call.Args[0], st), pos)
 		return []Value{v}, true
